@@ -67,6 +67,13 @@ import "go.lstv.dev/util/internal"
 //@   ensures [C07.sub] -9223372036854775808 <= (dord(d)-dord(e))*86400000000000 && (dord(d)-dord(e))*86400000000000 <= 9223372036854775807
 //@       ==> int(result) == (dord(d)-dord(e))*86400000000000
 
+// the day count: the difference of the day numbers, whenever the duration between the midnights fits time.Duration
+//@ func (Date).DaysBetween
+//@   requires wf(d) && wf(e)
+//@   ensures [C07.sub] -9223372036854775808 <= (dord(d)-dord(e))*86400000000000 && (dord(d)-dord(e))*86400000000000 <= 9223372036854775807
+//@       ==> result == dord(d)-dord(e)
+//@   opt opaque ord
+
 //@ func (*Date).Scan
 //@   ensures [C17.input] heapSame()
 //@   opt props C07,C17
